@@ -203,6 +203,14 @@ func runC45(c *Ctx) {
 		// the loop that built them: a closure that captures a variable shared between iterations computes with the
 		// last stage's function instead of its own.
 		n := c.checkFrozenCaptures("frozen", "stream", nil)
+		if c.Thorough() {
+			// discovery pass: the same late-binding rule over every other first-party package
+			for _, pk := range c.P.Pkgs {
+				if r := relPkg(pk.PkgPath); r != "stream" && r != "" {
+					c.checkFrozenCaptures("frozen-module-wide", r, nil)
+				}
+			}
+		}
 		if n < 2 {
 			c.Undecided("count", "at least two captured variables of stored closures in loops (the fusion pass)", "-", fmt.Sprintf("found %d", n))
 		}
